@@ -32,6 +32,9 @@ DEEP = [
     ('schedule', 'complete', 'schedule', 'complete'),
     ('creating', 'cancel_group', 'unschedule', 'cancel_ready'),
     ('schedule', 'deactivate', 'schedule', 'complete', 'cancel_ready'),
+    ('creating', 'u2_create', 'u2_jobs', 'u2_commit', 'complete'),      # a later update commits while a parent is Creating
+    ('schedule', 'u2_create', 'u2_jobs', 'u2_commit', 'complete'),
+    ('schedule', 'complete', 'u2_create', 'u2_jobs', 'u2_commit'),
 ]
 
 
